@@ -163,6 +163,9 @@ void UtilContext::disasm(uint32_t start, uint32_t end)
       }
     }
 
+    // The last page of the 32 bit address space.
+    if (n + data_size < n) { break; }
+
     n += data_size;
   }
 
